@@ -47,6 +47,10 @@ pub mod micromap {
         #[verifier::external_body]
         pub fn iter(&self) -> (r: Iter<'_, K, V>) ensures r.src() == self.view(), r.pos() == 0 { unimplemented!() }
     }
+    /// the pairs live in a fixed array of N slots
+    pub broadcast axiom fn axiom_len_le_capacity<K, V, const N: usize>(m: Map<K, V, N>)
+        ensures (#[trigger] m.view()).len() <= N;
+
     impl<K: PartialEq, V, const N: usize> Map<K, V, N> {
         /// swap-remove: the last pair moves into the hole (this is what micromap 0.0.19 does)
         #[verifier::external_body]
